@@ -84,6 +84,10 @@ pub trait Part: Sync {
     }
     fn cases(&self, tier: Tier) -> usize;
     fn run_case(&self, tape: &[u16], ctx: &Ctx) -> CaseReport;
+    /// Parts whose oracle is a function of the input text alone can replay a stored text (robust to generator changes).
+    fn run_text(&self, _text: &str, _ctx: &Ctx) -> Option<CaseReport> {
+        None
+    }
 }
 
 #[derive(Default)]
